@@ -210,6 +210,8 @@ class ApiGen:
                     "S", "Sri,Sri", "zinri", ",", "SdB,IL"]
             s.op("vnadata_set_format", v, qs(str(r.choice(fmts))))
             s.op("vnadata_get_format", v)
+            if r.random() < 0.4:
+                s.op("vnadata_set_format_own", v)
         elif k == 23:
             s.op("vnadata_set_filetype", v, int(r.integers(-1, 6)))
             s.op("vnadata_get_filetype", v)
@@ -353,6 +355,26 @@ class ApiGen:
         s.rvec(fname, sc.freqs)
         vc["vns"][name] = dict(sc=sc, next=0, freq_set=False, fname=fname,
                                uid=[self.n * 1000], solved=False)
+        if r.random() < 0.5:
+            # fast path to a deep state: enter the whole (sufficient) recipe
+            # and solve, so that later operations act on a solved calibration
+            vn = vc["vns"][name]
+            s.op("vnacal_new_set_frequency_vector $%s @%s" % (name, fname))
+            vn["freq_set"] = True
+            s.add("buf freq rvector %d %s" % (sc.F, " ".join(
+                hx(x) for x in sc.freqs)))
+            for st in sc.stds:
+                self.n += 1
+                sc.emit_std(s, st, self.n, vc=vcname, vn=name, uid=vn["uid"])
+            vn["next"] = len(sc.stds)
+            s.op("vnacal_new_solve $%s" % name)
+            vn["solved"] = True
+            if r.random() < 0.7:
+                s.op("%s=vnacal_add_calibration $%s %s $%s" % (
+                    self.uid("ci"), vcname, qs(str(r.choice(["A", "B", "C"]))),
+                    name))
+                vc["ncal"] += 1
+                s.op("vnacal_new_solve $%s" % name)
 
     def mutate_add(self, line_no, vn, sc):
         """rewrite the add call on line_no with boundary / invalid arguments"""
@@ -486,6 +508,11 @@ class ApiGen:
             s.op("vnacal_new_solve", w)
             return
         if k < 27:
+            if r.random() < 0.3 and vc["ncal"] > 0:
+                # replace a calibration under the library's own name string
+                s.op("%s=vnacal_add_calibration_own_name %s %d %s" % (
+                    self.uid("ci"), v, int(r.integers(0, vc["ncal"] + 1)), w))
+                return
             nm = str(r.choice(["A", "B", "C", "", "a name with spaces", "é"]))
             s.op("%s=vnacal_add_calibration %s %s %s" % (
                 self.uid("ci"), v, qs(nm), w))
@@ -541,6 +568,24 @@ class ApiGen:
                 s.rvec("sf" + pn, fr)
                 s.rvec("sv" + pn, r.uniform(0.001, 0.1, n))
                 fa = "@sf" + pn if (n > 1 or r.random() < 0.5) else "NULL"
+                if r.random() < 0.35:
+                    # frequencies borrowed from a vector parameter at the end
+                    # of the guess chain: vector -> unknown -> correlated
+                    n = int(r.integers(2, 5))
+                    fr2 = np.sort(r.uniform(5e8, 9e9, n))
+                    s.rvec("bf" + pn, fr2)
+                    s.cvec("bg" + pn, [self.cval() for _ in range(n)])
+                    s.op("bv%s=vnacal_make_vector_parameter %s @bf%s %d @bg%s"
+                         % (pn, v, pn, n, pn))
+                    other = "$bv" + pn
+                    if r.random() < 0.6:
+                        s.op("bu%s=vnacal_make_unknown_parameter %s $bv%s" % (
+                            pn, v, pn))
+                        other = "$bu" + pn
+                        vc["params"].append("bu" + pn)
+                    vc["params"].append("bv" + pn)
+                    s.rvec("sv" + pn, r.uniform(0.001, 0.1, n))
+                    fa = "NULL"
                 s.op("%s=vnacal_make_correlated_parameter %s %s %s %d @sv%s" % (
                     pn, v, other, fa, n, pn))
                 vc["params"].append(pn)
@@ -583,6 +628,8 @@ class ApiGen:
             path = self.uid("c") + ".vnacal"
             s.op("vnacal_save", v, qs(path))
             self.files.append((path, "cal"))
+            if r.random() < 0.3:
+                s.op("vnacal_save_own_filename", v)
             return
         if k < 38:
             # apply
